@@ -274,6 +274,22 @@ fn atom(r: &mut Rng, depth: u32, in_predicate: bool) -> (String, String) {
             t.push_str(sp(r)); t.push(')'); c.push(')');
             (t, c)
         }
+        // arithmetic atoms (the evaluator reports them as unsupported; the syntax and the printer have them)
+        2 if r.chance(1, 3) => {
+            if r.chance(1, 3) {
+                // unary sign in front of a path operand (a literal would be read as a signed number)
+                let (mut t, mut c) = if in_predicate || r.chance(1, 4) { ("$".to_string(), "(paths (root)".to_string()) } else { ("@".to_string(), "(paths (cur)".to_string()) };
+                for _ in 0..r.below(3) { let (st, sc) = inner_step(r); t.push_str(&st); c.push(' '); c.push_str(&sc); }
+                c.push(')');
+                let (ot, oc) = *r.pick(&[("+", "add"), ("-", "sub")]);
+                (format!("{}{}{}", ot, sp(r), t), format!("(un {} {})", oc, c))
+            } else {
+                let (lt, lc) = operand(r, in_predicate);
+                let (rt, rc) = operand(r, in_predicate);
+                let (ot, oc) = *r.pick(&[("+", "add"), ("-", "sub"), ("*", "mul"), ("/", "div"), ("%", "mod")]);
+                (format!("{}{}{}{}{}", lt, sp(r), ot, sp(r), rt), format!("(ar {} {} {})", oc, lc, rc))
+            }
+        }
         _ => {
             let (lt, lc) = operand(r, in_predicate);
             let (rt, rc) = operand(r, in_predicate);
